@@ -68,7 +68,7 @@ func filesetMain(mode string, a args) {
 				fs := parsley.NewFileSet()
 				var fl []*text.File
 				for _, f := range c.Files {
-					tf := text.NewFile(f.Name, bytesOf(f.Raw))
+					tf := mkFile(f.Name, bytesOf(f.Raw))
 					fs.AddFile(tf)
 					fl = append(fl, tf)
 				}
@@ -138,7 +138,7 @@ func filesetMain(mode string, a args) {
 			var fl []*text.File
 			next := 1
 			for _, f := range files {
-				tf := text.NewFile(f.Name, bytesOf(f.Raw))
+				tf := mkFile(f.Name, bytesOf(f.Raw))
 				fs.AddFile(tf)
 				fl = append(fl, tf)
 				o.put(J{"ev": "add", "name": f.Name, "raw": f.Raw, "len": tf.Len(), "base": int(tf.Pos(0))})
